@@ -265,7 +265,14 @@ def load_findings(pid):
     p = os.path.join(ROOT, "known_findings.json")
     if not os.path.exists(p):
         return {}
-    j = json.load(open(p))
+    for attempt in range(5):
+        try:
+            j = json.load(open(p))
+            break
+        except ValueError:
+            time.sleep(0.3)   # being rewritten by tools/add_finding.py
+    else:
+        raise
     return {f["key"]: f for f in j.get("findings", []) if f.get("property") == pid}
 
 
